@@ -399,7 +399,7 @@ func TestC13_DegenerateRange(t *testing.T) {
 			a := rapid.SampledFrom([]float64{1e-10, 2e-10, 2.4e-10, 1e-12, 1e-15, 3e-10}).Draw(t, "alpha")
 			spec = gen.MapSpec{Kind: kind, FromAlpha: true, Alpha: a}
 		} else {
-			g := rapid.SampledFrom([]float64{1.02, 1.0001, 2, 1.5, 1e13, 1e15, 1e30, 1e100}).Draw(t, "gamma")
+			g := rapid.SampledFrom([]float64{1.02, 1.0001, 2, 1.5, 1e13, 1e15, 1e30, 1e100, 1e200, 1e214, 1e250, 1e300, 1e306, 1e308, math.MaxFloat64}).Draw(t, "gamma")
 			o := rapid.SampledFrom([]float64{-1e11, 1e11, 3e9, -3e9, 2.2e9, -2.2e9, 1e15, -1e15, 2147483647, -2147483648, 0, 0, 1}).Draw(t, "offset")
 			spec = gen.MapSpec{Kind: kind, Gamma: g, Offset: o}
 		}
@@ -408,9 +408,10 @@ func TestC13_DegenerateRange(t *testing.T) {
 			t.Skip("mapping refused")
 		}
 		mn, mx := m.MinIndexableValue(), m.MaxIndexableValue()
-		if math.IsNaN(mx) || math.IsNaN(mn) {
-			t.Skip("bounds are NaN")
-		}
+		// (bounds that are not numbers - which finite parameters used to produce - leave "above the largest indexable
+		// value" undefined: only the infinities and NaN are then judged)
+		nanBounds := math.IsNaN(mx) || math.IsNaN(mn)
+		cl.labelIf(nanBounds, "range:nan")
 		cl.logf("C13 degenerate %s: indexable range [%v,%v]", spec, mn, mx)
 		cl.labelIf(!(mn < mx), "range:empty")
 		exact := rapid.Bool().Draw(t, "exact")
@@ -425,10 +426,12 @@ func TestC13_DegenerateRange(t *testing.T) {
 			switch {
 			case math.IsNaN(v):
 				want = ddsketch.ErrUntrackableNaN
-			case v > mx:
+			case v > mx || math.IsInf(v, 1):
 				want = ddsketch.ErrUntrackableTooHigh
-			case v < -mx:
+			case v < -mx || math.IsInf(v, -1):
 				want = ddsketch.ErrUntrackableTooLow
+			case nanBounds:
+				continue
 			}
 			cl.logf("AddWithCount(%v,%v) -> %v", v, w, err)
 			if want != nil {
